@@ -41,6 +41,10 @@ var fatalMarks = []string{"fatal error:", "goroutine stack exceeds", "out of mem
 
 var reProgress = regexp.MustCompile(`(?m)^transpile: .*$`)
 
+// time limits of one fc run: a run that exceeds the first is repeated alone under the second before it
+// counts as non-termination
+var firstLimit, confirmLimit = 15 * time.Second, 120 * time.Second
+
 type verdict struct {
 	outcome string // accept | diagnostic | go-panic-diagnostic
 }
@@ -116,18 +120,18 @@ func checkWith(e *vt.Env, fc string, c Case) (verdict, error) {
 	seq++
 	base := filepath.Join(e.Scratch, fmt.Sprintf("r%d", seq%4))
 	dir := filepath.Join(base, "a")
-	r, foArgs, err := runOnce(e, fc, c, dir, 15*time.Second)
+	r, foArgs, err := runOnce(e, fc, c, dir, firstLimit)
 	if err != nil {
 		return verdict{}, err
 	}
 	if r.TimedOut {
 		// confirm alone with a much larger limit before it counts as non-termination
-		r, foArgs, err = runOnce(e, fc, c, dir, 120*time.Second)
+		r, foArgs, err = runOnce(e, fc, c, dir, confirmLimit)
 		if err != nil {
 			return verdict{}, err
 		}
 		if r.TimedOut {
-			return verdict{}, fmt.Errorf("fc does not terminate (killed after 120 s; ordinary runs take milliseconds)\n%s", describe(c))
+			return verdict{}, fmt.Errorf("fc does not terminate (killed after %.0f s; ordinary runs take milliseconds)\n%s", confirmLimit.Seconds(), describe(c))
 		}
 	}
 	if r.Err != nil {
@@ -645,9 +649,270 @@ func TestFaults(t *testing.T) {
 	e.Meta("TestFaults", map[string]any{"exhaustive": true, "domain": "the listed argument-list faults, output-path faults, self-referential definitions and unterminated constructs at end of file", "cases": len(cases)})
 }
 
+// TestKnown re-runs the reproducer of every recorded finding. The quick tier confirms a timeout with 25 s
+// instead of 120 s (the reproducers need hours; a repaired fc needs milliseconds).
+func TestKnown(t *testing.T) {
+	e := vt.Get()
+	defer e.Flush()
+	if e.FC == "" {
+		t.Skip("needs the orchestrator (VERIF_FC)")
+	}
+	if e.Shard != 0 {
+		return
+	}
+	if e.Tier != "thorough" {
+		old1, old2 := firstLimit, confirmLimit
+		firstLimit, confirmLimit = 5*time.Second, 25*time.Second
+		defer func() { firstLimit, confirmLimit = old1, old2 }()
+	}
+	for _, k := range e.KnownFor("C16") {
+		b, err := os.ReadFile(filepath.Join(e.VerifDir, k.Reproducer))
+		if err != nil {
+			t.Fatalf("known finding %s: reproducer missing: %v", k.ID, err)
+		}
+		var fc vt.FailCase
+		if err := json.Unmarshal(b, &fc); err != nil {
+			t.Fatalf("known finding %s: %v", k.ID, err)
+		}
+		var sc ScaleCase
+		json.Unmarshal(fc.Case, &sc)
+		c, err := sc.toCase()
+		if err != nil {
+			t.Fatalf("known finding %s: %v", k.ID, err)
+		}
+		if _, err := checkWith(e, e.FC, c); err != nil {
+			vt.PrintKnown(k)
+		} else {
+			t.Logf("known finding %s no longer reproduces", k.ID)
+		}
+		e.Record("TestKnown", vt.HashJSON(sc), true, []string{"known finding " + k.ID}, func() any { return sc })
+	}
+}
+
 func TestReplay(t *testing.T) {
 	e := vt.Get()
 	e.RunReplay(t, map[string]func(json.RawMessage) error{
 		"fc-run": vt.Handler(check),
+		"scale":  vt.Handler(checkScale),
+	})
+}
+
+// --- scale: the same construct repeated or nested N times --------------------------------------------
+// Termination and error discipline must not depend on the size of the input: every template is a valid
+// (or cleanly rejected) program at small N and is generated with N drawn on a logarithmic scale up to a
+// per-template bound at which fc's (polynomial) running time is still far below the time limit. Depths
+// of 100,000 and more exhaust the Go stack (known finding D23) and are not generated here.
+
+type scaleTpl struct {
+	name string
+	max  int
+	make func(n int) string
+}
+
+func rep(s string, n int) string { return strings.Repeat(s, n) }
+
+var scaleTpls = []scaleTpl{
+	{"nested parentheses", 8000, func(n int) string { return "let f () =\n  " + rep("(", n) + "1" + rep(")", n) + "\n" }},
+	{"nested slice literals", 400, func(n int) string { return "let f () =\n  " + rep("[", n) + "1" + rep("]", n) + "\n" }},
+	{"nested applications", 5000, func(n int) string {
+		return "let g (x:int) = x\n\nlet f () =\n  " + rep("g (", n) + "1" + rep(")", n) + "\n"
+	}},
+	{"nested not", 5000, func(n int) string { return "let f (b:bool) =\n  " + rep("not (", n) + "b" + rep(")", n) + "\n" }},
+	{"+ chain", 8000, func(n int) string { return "let f () =\n  1" + rep(" + 1", n) + "\n" }},
+	{"string + chain", 8000, func(n int) string { return "let f () =\n  \"a\"" + rep(" + \"a\"", n) + "\n" }},
+	{"&& chain", 8000, func(n int) string { return "let f (b:bool) =\n  b" + rep(" && b", n) + "\n" }},
+	{"pipe chain", 3000, func(n int) string { return "let id (x:int) = x\n\nlet f () =\n  1" + rep(" |> id", n) + "\n" }},
+	{"pipe chain over lines", 3000, func(n int) string { return "let id (x:int) = x\n\nlet f () =\n  1\n" + rep("  |> id\n", n) }},
+	{"nested lambdas", 250, func(n int) string { return "let f () =\n  " + rep("fun (x:int) -> ", n) + "1\n" }},
+	{"nested if/else", 300, func(n int) string {
+		var sb strings.Builder
+		sb.WriteString("let f (b:bool) =\n")
+		for i := 0; i < n; i++ {
+			sb.WriteString(rep("  ", i+1) + "if b then\n")
+		}
+		sb.WriteString(rep("  ", n+1) + "1\n")
+		for i := n - 1; i >= 0; i-- {
+			sb.WriteString(rep("  ", i+1) + "else\n" + rep("  ", i+2) + "0\n")
+		}
+		return sb.String()
+	}},
+	{"elif chain", 2000, func(n int) string {
+		return "let f (x:int) =\n  if x = 0 then\n    0\n" + func() string {
+			var sb strings.Builder
+			for i := 1; i <= n; i++ {
+				fmt.Fprintf(&sb, "  elif x = %d then\n    %d\n", i, i)
+			}
+			return sb.String()
+		}() + "  else\n    -1\n"
+	}},
+	{"many lets", 20000, func(n int) string {
+		var sb strings.Builder
+		sb.WriteString("let f () =\n")
+		for i := 0; i < n; i++ {
+			fmt.Fprintf(&sb, "  let v%d = %d\n", i, i)
+		}
+		sb.WriteString("  0\n")
+		return sb.String()
+	}},
+	{"many functions", 20000, func(n int) string {
+		var sb strings.Builder
+		for i := 0; i < n; i++ {
+			fmt.Fprintf(&sb, "let f%d () = %d\n\n", i, i)
+		}
+		return sb.String()
+	}},
+	{"call chain through many functions", 3000, func(n int) string {
+		var sb strings.Builder
+		sb.WriteString("let f0 (x:int) = x\n\n")
+		for i := 1; i <= n; i++ {
+			fmt.Fprintf(&sb, "let f%d (x:int) = f%d x + 1\n\n", i, i-1)
+		}
+		return sb.String()
+	}},
+	{"long slice literal", 50000, func(n int) string { return "let f () =\n  [1" + rep("; 1", n) + "]\n" }},
+	{"long tuple (rejected above 3)", 50000, func(n int) string { return "let f () =\n  (1" + rep(", 1", n) + ")\n" }},
+	{"long string literal", 2000000, func(n int) string { return "let f () =\n  \"" + rep("x", n) + "\"\n" }},
+	{"long raw string literal with newlines", 1000000, func(n int) string { return "let f () =\n  `" + rep("x\n", n) + "`\n" }},
+	{"long interpolated literal", 20000, func(n int) string { return "let f (a:int) =\n  $\"" + rep("{a}-", n) + "\"\n" }},
+	{"long identifier", 200000, func(n int) string { return "let " + rep("a", n+1) + " () = 1\n" }},
+	{"long integer literal", 5000, func(n int) string { return "let f () =\n  1" + rep("0", n) + "\n" }},
+	{"long line comment", 2000000, func(n int) string { return "// " + rep("c", n) + "\nlet f () = 1\n" }},
+	{"long block comment", 2000000, func(n int) string { return "/* " + rep("c\n", n) + " */\nlet f () = 1\n" }},
+	{"many blank lines", 60000, func(n int) string { return "let f () =\n" + rep("\n", n) + "  1\n" }},
+	{"trailing spaces", 1000000, func(n int) string { return "let f () =" + rep(" ", n) + "\n  1\n" }},
+	{"deep indentation", 100000, func(n int) string { return "let f () =\n" + rep(" ", n+1) + "1\n" }},
+	{"many parameters", 90, func(n int) string {
+		var sb strings.Builder
+		sb.WriteString("let f")
+		for i := 0; i <= n; i++ {
+			fmt.Fprintf(&sb, " (p%d:int)", i)
+		}
+		sb.WriteString(" = p0\n")
+		return sb.String()
+	}},
+	{"many un-annotated parameters (rejected above the type-variable limit)", 300, func(n int) string {
+		var sb strings.Builder
+		sb.WriteString("let f")
+		for i := 0; i <= n; i++ {
+			fmt.Fprintf(&sb, " p%d", i)
+		}
+		sb.WriteString(" = p0\n")
+		return sb.String()
+	}},
+	{"record with many fields", 3000, func(n int) string {
+		var sb strings.Builder
+		sb.WriteString("type R = {F0: int")
+		for i := 1; i <= n; i++ {
+			fmt.Fprintf(&sb, "; F%d: int", i)
+		}
+		sb.WriteString("}\n\nlet f (r:R) = r.F0\n")
+		return sb.String()
+	}},
+	{"union with many cases and a full match", 400, func(n int) string {
+		var sb strings.Builder
+		sb.WriteString("type U =\n")
+		for i := 0; i <= n; i++ {
+			fmt.Fprintf(&sb, "| K%d of int\n", i)
+		}
+		sb.WriteString("\nlet f (u:U) =\n  match u with\n")
+		for i := 0; i <= n; i++ {
+			fmt.Fprintf(&sb, "  | K%d v -> v + %d\n", i, i)
+		}
+		return sb.String()
+	}},
+	{"string match with many arms", 3000, func(n int) string {
+		var sb strings.Builder
+		sb.WriteString("let f (s:string) =\n  match s with\n")
+		for i := 0; i <= n; i++ {
+			fmt.Fprintf(&sb, "  | \"k%d\" -> %d\n", i, i)
+		}
+		sb.WriteString("  | _ -> 0\n")
+		return sb.String()
+	}},
+	{"nested slice type", 2000, func(n int) string { return "let f (x:" + rep("[]", n+1) + "int) = x\n" }},
+	{"long function type", 3000, func(n int) string { return "let f (x:int" + rep("->int", n+1) + ") = x\n" }},
+	// the next three double fc's running time with every level (known finding D24): bounded at 8 levels
+	{"nested generic type argument", 8, func(n int) string {
+		return "type B<T> = {V: T}\n\nlet f (x:" + rep("B<", n) + "int" + rep(">", n) + ") = x\n"
+	}},
+	{"nested constructor applications of a generic union", 8, func(n int) string {
+		return "type Opt<T> =\n| Some of T\n| None\n\nlet f () =\n  " + rep("Some (", n) + "1" + rep(")", n) + "\n"
+	}},
+	{"nested literals of a generic record", 8, func(n int) string {
+		return "type B<T> = {V: T}\n\nlet f () =\n  " + rep("{V=", n) + "1" + rep("}", n) + "\n"
+	}},
+	{"many files' worth of package_info entries", 5000, func(n int) string {
+		var sb strings.Builder
+		sb.WriteString("package_info ext =\n")
+		for i := 0; i <= n; i++ {
+			fmt.Fprintf(&sb, "  let F%d: int->int\n", i)
+		}
+		sb.WriteString("\nlet f () = ext.F0 1\n")
+		return sb.String()
+	}},
+}
+
+// ScaleCase is stored instead of the (possibly large) file content.
+type ScaleCase struct {
+	Template string `json:"template"`
+	N        int    `json:"n"`
+}
+
+func (sc ScaleCase) toCase() (Case, error) {
+	for _, tp := range scaleTpls {
+		if tp.name == sc.Template {
+			body := "package main\n\nimport frt\n\n" + tp.make(sc.N)
+			return Case{Files: []File{{Name: "scale.fo", Content: []byte(body)}}, Args: []string{"@foi", "scale.fo"}, Mutator: []string{"scale:" + tp.name}}, nil
+		}
+	}
+	return Case{}, fmt.Errorf("unknown scale template %q", sc.Template)
+}
+
+func checkScale(sc ScaleCase) error {
+	c, err := sc.toCase()
+	if err != nil {
+		return err
+	}
+	if err := check(c); err != nil {
+		msg := err.Error()
+		if i := strings.Index(msg, "--- "); i > 0 && len(msg) > 1500 {
+			msg = msg[:i]
+		}
+		return fmt.Errorf("template %q with N = %d: %s", sc.Template, sc.N, pipeline.Clip(msg, 1500))
+	}
+	return nil
+}
+
+func TestScale(t *testing.T) {
+	e := vt.Get()
+	defer e.Flush()
+	if e.FC == "" {
+		t.Skip("needs the orchestrator (VERIF_FC)")
+	}
+	rapid.Check(t, func(rt *rapid.T) {
+		tp := scaleTpls[rapid.IntRange(0, len(scaleTpls)-1).Draw(rt, "template")]
+		// logarithmic scale: a decade is drawn first, then a position inside it; the bound itself is drawn often
+		n := tp.max
+		if rapid.IntRange(0, 3).Draw(rt, "atBound") != 0 {
+			dec := 1
+			for d := rapid.IntRange(0, 6).Draw(rt, "decade"); d > 0 && dec*10 <= tp.max; d-- {
+				dec *= 10
+			}
+			n = rapid.IntRange(dec, min(dec*10, tp.max)).Draw(rt, "n")
+		}
+		sc := ScaleCase{Template: tp.name, N: n}
+		var v verdict
+		e.Check(rt, "scale", sc, func() error {
+			c, err := sc.toCase()
+			if err != nil {
+				return err
+			}
+			v, err = checkWith(e, e.FC, c)
+			if err != nil {
+				return checkScale(sc)
+			}
+			return nil
+		})
+		e.Record("TestScale", vt.HashJSON(sc), n >= 100, []string{"scale:" + tp.name, "outcome:" + v.outcome}, func() any { return sc })
 	})
 }
